@@ -18,7 +18,7 @@ RULE = ("(a) all 120 permutations of the five required columns on a fixed 2-seas
         "combined with a rotating index / extra-column variant); (b) Hypothesis: generated configurations (calendar and thermal "
         "crops, 1-2 seasons) x generated re-presentations of the weather table: column permutation, 0-3 unrelated columns "
         "(numeric, integer, string, datetime, numeric with missing values, objects with None) at any position, re-indexing (shifted integers, dates, reversed labels, string "
-        "labels, REPEATED labels as after concatenating yearly tables, one constant label; rows stay in date order), extra leading / trailing rows with absurd values, float32 round trip excluded. Oracles: "
+        "labels, REPEATED labels as after concatenating yearly tables, one constant label; rows stay in date order), extra leading / trailing rows with absurd values, float32 round trip excluded; in 30 % of the cases the table itself (canonical and re-presented) holds 1-3 of the variables as whole numbers in INTEGER columns (mixed dtypes). Oracles: "
         "all three daily tables and the summary bitwise equal to the run on the canonical table; AND on every simulated day the "
         "record handed to the daily solution (observed by a wrapper) is exactly the canonical record carrying that day's date. One evaluation per pair. "
         "Non-trivial pair: the transformation moves at least one required column to another position; distinct = (configuration, "
@@ -57,7 +57,15 @@ def xforms(draw):
 
 @st.composite
 def cases(draw):
-    return dict(cfg=draw(gen.configs(PROFILE)), xform=draw(xforms()))
+    cfg = draw(gen.configs(PROFILE))
+    xf = draw(xforms())
+    if draw(st.integers(0, 9)) < 3:
+        # the table itself (canonical and re-presented alike) holds some variables as whole numbers in integer columns:
+        # a re-indexed / permuted table of mixed dtypes must still be bound by date and name
+        cols = draw(st.lists(st.sampled_from(["Precipitation", "Precipitation", "MinTemp", "MaxTemp", "ReferenceET"]), min_size=1, max_size=3, unique=True))
+        if cols:
+            cfg["weather_xform"] = list(cfg.get("weather_xform") or []) + [dict(op="intcols", cols=sorted(cols))]
+    return dict(cfg=cfg, xform=xf)
 
 
 def strategy(tier):
@@ -142,6 +150,8 @@ def evaluate(case):
     moved = any(order.index(c) != canon.index(c) for c in canon)
     for op in xf:
         res.labels.add(op["op"] + (":" + op["kind"] if "kind" in op else ""))
+    if any(op.get("op") == "intcols" for op in (cfg.get("weather_xform") or [])):
+        res.labels.add("integer_columns")
     if moved:
         res.labels.add("required_column_moved")
     if cfg["crop"]["name"] in gen.GDD_CROPS:
